@@ -26,6 +26,8 @@ type Mutation struct {
 	Site  string // human readable location
 	Apply func()
 	Text  func(dsl string) string
+	// Benign: the mutant refers to nothing that is missing; goa may accept or reject it, it may not crash.
+	Benign bool
 }
 
 func objectDef(s *spec.Spec, a *spec.Attr) *spec.Type {
@@ -277,6 +279,113 @@ func Mutations(s *spec.Spec) []*Mutation {
 			}})
 	}
 	return out
+}
+
+// typeMetaKeys / attrMetaKeys: documented Meta keys of goa that user types / attributes may carry.
+var typeMetaKeys = []string{"struct:pkg:path", "type:generate:force", "openapi:typename", "openapi:generate", "openapi:example", "openapi:additionalProperties", "struct:tag:json", "openapi:extension:x-lab", "struct:error:name", "struct:name:original"}
+var attrMetaKeys = []string{"struct:field:name", "struct:field:type", "struct:field:pointer", "struct:field:external", "struct:tag:json", "rpc:tag", "openapi:example", "struct:error:name", "view"}
+
+// MetaMutations decorates a valid spec with documented Meta keys spelled WITHOUT a value (Meta("key")) or with one:
+// no name goes missing, so goa may accept or reject the design, but evaluation may not crash. For a type-level key
+// every object type that refers to another user type gets the key with a value and every other object type the bare
+// key (an outer type with a value around an inner type with the bare key is the combination no unit test has).
+func MetaMutations(s *spec.Spec) []*Mutation {
+	var out []*Mutation
+	var objs []*spec.UserType
+	for _, t := range s.Types {
+		if t.Def != nil && t.Def.Kind == spec.Object && t.Kind != "alias" {
+			objs = append(objs, t)
+		}
+	}
+	if len(objs) == 0 {
+		return nil
+	}
+	refers := func(t *spec.UserType) bool {
+		found := false
+		var walk func(tt *spec.Type, d int)
+		walk = func(tt *spec.Type, d int) {
+			if tt == nil || d > 6 {
+				return
+			}
+			if tt.Kind == spec.Ref {
+				found = true
+			}
+			for _, a := range tt.Attrs {
+				walk(a.Type, d+1)
+			}
+			if tt.Elem != nil {
+				walk(tt.Elem.Type, d+1)
+			}
+			if tt.Key != nil {
+				walk(tt.Key.Type, d+1)
+			}
+		}
+		walk(t.Def, 0)
+		return found
+	}
+	set := func(m map[string][]string, k string, v []string) map[string][]string {
+		if m == nil {
+			m = map[string][]string{}
+		}
+		m[k] = v
+		return m
+	}
+	for _, k := range typeMetaKeys {
+		k := k
+		out = append(out, &Mutation{Class: "meta-key-only:type:" + k, Name: k, Site: "every object user type", Benign: true, Apply: func() {
+			for _, t := range objs {
+				if refers(t) {
+					t.Meta = set(t.Meta, k, []string{"types"})
+				} else {
+					t.Meta = set(t.Meta, k, nil)
+				}
+			}
+		}})
+		out = append(out, &Mutation{Class: "meta-key-only:type-all:" + k, Name: k, Site: "every object user type (bare key)", Benign: true, Apply: func() {
+			for _, t := range objs {
+				t.Meta = set(t.Meta, k, nil)
+			}
+		}})
+	}
+	for _, k := range attrMetaKeys {
+		k := k
+		out = append(out, &Mutation{Class: "meta-key-only:attribute:" + k, Name: k, Site: "first attribute of every object user type", Benign: true, Apply: func() {
+			for _, t := range objs {
+				if len(t.Def.Attrs) > 0 {
+					t.Def.Attrs[0].Meta = set(t.Def.Attrs[0].Meta, k, nil)
+				}
+			}
+		}})
+	}
+	return out
+}
+
+// NestedSpec is a small fixed-shape design for the Meta mutants: user types that hold one another directly, in an
+// array and in a map, used as payload and result of HTTP methods (so that every validator walks them).
+func NestedSpec(r *vc.Rand, id string) *spec.Spec {
+	s := &spec.Spec{ID: id}
+	s.API.Name = "api" + strings.ToLower(id)
+	s.API.Title = "lab " + id
+	s.API.Version = "1.0"
+	str := func() *spec.Type { return &spec.Type{Kind: spec.String} }
+	ref := func(n string) *spec.Type { return &spec.Type{Kind: spec.Ref, Ref: n} }
+	inner := &spec.UserType{Name: "Inner", Kind: "type", Def: &spec.Type{Kind: spec.Object, Attrs: []*spec.Attr{{Name: "label", Type: str()}, {Name: "count", Type: &spec.Type{Kind: spec.Int}}}}}
+	var hold *spec.Type
+	switch r.Intn(3) {
+	case 0:
+		hold = ref("Inner")
+	case 1:
+		hold = &spec.Type{Kind: spec.Array, Elem: &spec.Attr{Type: ref("Inner")}}
+	default:
+		hold = &spec.Type{Kind: spec.Map, Key: &spec.Attr{Type: str()}, Elem: &spec.Attr{Type: ref("Inner")}}
+	}
+	outer := &spec.UserType{Name: "Outer", Kind: "type", Def: &spec.Type{Kind: spec.Object, Attrs: []*spec.Attr{{Name: "held", Type: hold}, {Name: "note", Type: str()}}}}
+	s.Types = []*spec.UserType{inner, outer}
+	s.Services = []*spec.Service{{Name: "nest", BasePath: "/nest", Methods: []*spec.Method{
+		{Name: "put", Payload: &spec.Attr{Type: ref("Outer")}, Result: &spec.Attr{Type: ref("Outer")}, HTTP: &spec.HTTP{Routes: []spec.Route{{Verb: "POST", Path: "/put"}}}},
+		{Name: "get", Result: &spec.Attr{Type: ref("Inner")}, HTTP: &spec.HTTP{Routes: []spec.Route{{Verb: "GET", Path: "/get"}}}},
+	}}}
+	return s
 }
 
 // Classes returns the sorted distinct classes of a mutation list.
